@@ -119,7 +119,8 @@ _case_counter = [0]
 
 def run_inproc(argv, world_json=None, trace=None, plan=None, cwd=None,
                env_extra=None, pre=None, post=None, warnings=None,
-               defaults=None, stdin=None, purge=('w',), purge_under=None):
+               defaults=None, stdin=None, purge=('w',), purge_under=None,
+               script_parts=None, run_cwd=None):
     """Call the real run_internal in this process.
 
     purge: prefixes of world module names to drop from sys.modules."""
@@ -167,7 +168,8 @@ def run_inproc(argv, world_json=None, trace=None, plan=None, cwd=None,
             vtrace.emit('run.enter', argv=argv)
             res.returned = zope.testrunner.run_internal(
                 defaults=list(defaults or []), args=[LAUNCHER] + list(argv),
-                script_parts=[LAUNCHER], warnings=warnings)
+                script_parts=list(script_parts or [LAUNCHER]),
+                warnings=warnings, cwd=run_cwd)
             vtrace.emit('run.return', value=bool(res.returned))
         except BaseException as e:   # noqa
             res.raised = e
